@@ -49,7 +49,7 @@ def mc_blockdep(run):
 
 
 def api_streams(run, nlists, sd, accels):
-    res, finals = tlc.simulate_final_states("OpSeq", "OpSeq.cfg", nlists, 121, sd + 11)
+    res, finals = tlc.simulate_final_states("OpSeq", "OpSeq.cfg", nlists, 133, sd + 11)
     run.add_mc("OpSeq(simulate)", res)
     out = []
     for k, st in enumerate(finals):
@@ -61,6 +61,18 @@ def api_streams(run, nlists, sd, accels):
                 run.cov.setdefault("api_rejections", []).append("%s: %s" % (type(e).__name__, str(e)[:120]))
                 continue
             out.append({"src": "api", "accel": accel, "abstract": st["ops"], "descs": descs, "words": words})
+            if k % 4 == 0:
+                # history: the same operation objects are handed to the generator a second time with other buffers
+                nb = 3
+                recs2 = [dict(r, r=r["r"] % nb + 1, w=(r["w"] + 1) % nb + 1, wb=(0 if r["wb"] == 0 else r["wb"] % nb + 1))
+                         for r in st["ops"]]
+                descs2 = opseq.realise_list(recs2, accel)
+                try:
+                    words2, _ = apiops.generate_reusing(descs, descs2, accel)
+                except Exception as e:
+                    run.cov.setdefault("api_rejections", []).append("reuse %s: %s" % (type(e).__name__, str(e)[:120]))
+                    continue
+                out.append({"src": "api", "accel": accel, "abstract": recs2, "descs": descs2, "words": words2, "reused": True})
     return out
 
 
@@ -157,7 +169,7 @@ def main(tier):
         for v in viol:
             it, ops = index[v[0]]
             key, sig = describe(it, ops, v)
-            rp = {"violated": v[1:], "signature": sig, "accel": it["accel"], "src": it["src"]}
+            rp = {"violated": v[1:], "signature": sig, "accel": it["accel"], "src": it["src"], "reused_objects": bool(it.get("reused"))}
             if it["src"] == "api":
                 rp.update(descs=it["descs"], abstract=it["abstract"])
             else:
